@@ -132,9 +132,9 @@ Proof. vm_compute. do 4 eexists. repeat split; reflexivity. Qed.
 
 (* Generated/StripFn.v (tools/gen_fn_strip.py, rewritten on every run) holds the translations of the
    incremental iterators' `next` methods (StripStrIter, StripBytesIter) and of the scanners below
-   them.  Feeding chunks through them -- [g_bytes_chunks] / [g_str_chunks]: `strip_next` (token-pinned:
-   it returns a struct holding `&mut self.state`) copies the carried state in, the drained iterator
-   leaves the new one -- computes exactly what the hand model computes. *)
+   them.  Feeding chunks through them -- [g_bytes_chunks] / [g_str_chunks]: `strip_next` (it returns a
+   struct holding `&mut self.state`; translated too, see c03_translated_strip_next below) copies the carried
+   state in, the drained iterator leaves the new one -- computes exactly what the hand model computes. *)
 Theorem c03_translated_bytes_iter_next_is_model :
   forall it off, g_strip_bytes_iter_next it = bytes_next_result (next_bytes (bi_bytes it) off (bi_state it) (bi_utf8 it)).
 Proof. exact g_strip_bytes_iter_next_eq. Qed.
@@ -178,6 +178,50 @@ Theorem c03_translated_str_chunks_refine_spec :
     concat (map (@concat N) pss) = spec_strip (concat chunks) /\
     Some (concat (map (@concat N) pss)) = g_strip_str_to_string (concat chunks).
 Proof. exact translated_str_chunks_refine_spec. Qed.
+
+(* `StripStr::new` / `StripBytes::new` (a derived Default: every field's default), `strip_next` and
+   `StrippedBytes::{is_empty, extend}` are translated too: the initial states are the hand model's, `strip_next`
+   copies the carried state into an iterator over the bytes handed in ... *)
+Theorem c03_translated_new_is_initial :
+  g_strip_str_new = Ground /\ g_strip_bytes_new = mkStripBytesSt Ground u8_new.
+Proof. exact (conj g_strip_str_new_eq g_strip_bytes_new_eq). Qed.
+
+Theorem c03_translated_strip_next :
+  (forall s c, g_strip_str_strip_next s c = (s, mkStrIt c s)) /\
+  (forall s c, g_strip_bytes_strip_next s c = (s, mkBytesIt c (sbs_state s) (sbs_utf8 s))).
+Proof. exact (conj g_strip_str_strip_next_eq g_strip_bytes_strip_next_eq). Qed.
+
+Theorem c03_translated_stripped_bytes_extend :
+  forall it bs, g_stripped_bytes_extend it bs =
+  match bi_bytes it with [] => Some (mkBytesIt bs (bi_state it) (bi_utf8 it)) | _ => None end.
+Proof. exact g_stripped_bytes_extend_eq. Qed.
+
+(* ... and the chunked drive written over them ([gt_*_chunks]: new, then per chunk strip_next, drain, carry the
+   state the iterator leaves) is the drive above, hence refines the specification from `new()` on *)
+Theorem c03_translated_str_drive_is_model : forall chunks s, gt_str_chunks chunks s = g_str_chunks chunks s.
+Proof. exact gt_str_chunks_eq. Qed.
+
+Theorem c03_translated_bytes_drive_is_model : forall chunks s,
+  gt_bytes_chunks chunks s =
+  match g_bytes_chunks chunks (sbs_state s) (sbs_utf8 s) with
+  | Some (pss, st, u) => Some (pss, mkStripBytesSt st u)
+  | None => None
+  end.
+Proof. exact gt_bytes_chunks_eq. Qed.
+
+Theorem c03_translated_str_new_chunks_refine_spec :
+  forall chunks, bytes_ok (concat chunks) -> Forall (fun c => valid_utf8 c = true) chunks ->
+  exists pss st,
+    gt_str_chunks chunks g_strip_str_new = Some (pss, st) /\
+    concat (map (@concat N) pss) = spec_strip (concat chunks).
+Proof. exact translated_str_new_chunks_refine_spec. Qed.
+
+Theorem c03_translated_bytes_new_chunks_refine_spec :
+  forall chunks, bytes_ok (concat chunks) ->
+  exists pss s,
+    gt_bytes_chunks chunks g_strip_bytes_new = Some (pss, s) /\
+    concat (map (@concat N) pss) = spec_strip (concat chunks).
+Proof. exact translated_bytes_new_chunks_refine_spec. Qed.
 
 (* ---- the tie by translation (wincon extractor) ---------------------------------------- *)
 
